@@ -1,0 +1,60 @@
+//go:build verif
+
+package partition
+
+// Verification exports for property C02 (time-range queries): chkStatus position checks and the updatePoss window.
+// Pure additions, compiled only with the build tag `verif`.
+
+import (
+	"github.com/logrange/logrange/pkg/model"
+	"github.com/logrange/logrange/pkg/tmindex"
+	"github.com/logrange/range/pkg/records/chunk"
+	"github.com/logrange/range/pkg/records/journal"
+)
+
+// VerifCheckPosOrAdvance is chkStatus.checkPosOrAdvance on the given status.
+func VerifCheckPosOrAdvance(minPos, maxPos, count, pos uint32) (uint32, bool) {
+	st := &chkStatus{minPos: minPos, maxPos: maxPos, count: count}
+	return st.checkPosOrAdvance(pos)
+}
+
+// VerifCheckPosOrReduce is chkStatus.checkPosOrReduce on the given status.
+func VerifCheckPosOrReduce(minPos, maxPos, count, pos uint32) (uint32, bool) {
+	st := &chkStatus{minPos: minPos, maxPos: maxPos, count: count}
+	return st.checkPosOrReduce(pos)
+}
+
+type verifC02Jrnl struct {
+	journal.Journal
+	name string
+}
+
+func (j *verifC02Jrnl) Name() string { return j.name }
+
+type verifC02Chk struct {
+	chunk.Chunk
+	id chunk.Id
+}
+
+func (c *verifC02Chk) Id() chunk.Id { return c.id }
+
+type verifC02Rebuilder struct{ n int }
+
+func (r *verifC02Rebuilder) RebuildIndex(src string, cid chunk.Id, force bool) { r.n++ }
+
+// VerifUpdatePoss runs chkSelector.updatePoss for the range over the chunk described by ri, asking tmidx; it returns
+// the window and how many times the rebuilder was asked to rebuild the chunk's index.
+func VerifUpdatePoss(tmRange model.TimeRange, src string, ri tmindex.RecordsInfo, tmidx tmindex.TsIndexer) (minPos, maxPos uint32, rebuilds int) {
+	rb := &verifC02Rebuilder{}
+	cs := newChkSelector(tmRange, &verifC02Jrnl{name: src}, tmidx, rb)
+	st := &chkStatus{}
+	cs.updatePoss(&verifC02Chk{id: ri.Id}, st, ri)
+	return st.minPos, st.maxPos, rb.n
+}
+
+// VerifRebuilderIdle reports whether the asynchronous time-index rebuilder has no running or queued request.
+func (s *Service) VerifRebuilderIdle() bool {
+	s.tmir.lock.Lock()
+	defer s.tmir.lock.Unlock()
+	return len(s.tmir.chunks) == 0
+}
